@@ -159,6 +159,9 @@ func enumTwins(rec *ev.Rec) (int, bool) {
 			if pass == 1 {
 				c.Pad = 1 + n%3
 			}
+			if n%4 == 0 && hasBracketStep(c.Steps) {
+				c.Mal = []int{n / 4} // while the path cache is still filling: a poisoned split would be stored
+			}
 			n++
 			nt, cls := classifyPath(c)
 			if !run.Each(rec, "pathtwins", c, nt, cls, checkPath) {
